@@ -6,11 +6,24 @@ HERE = os.path.dirname(os.path.dirname(os.path.abspath(__file__)))
 sys.path.insert(0, HERE)
 from yk import mutants
 props = ['C%02d' % i for i in range(1, 21)]
+import zlib
+SHARD = None
+IDS = None
+for a_ in sys.argv[1:]:
+    if a_.startswith('--ids='):
+        IDS = set(a_[6:].split(','))
+    if a_.startswith('--shard='):
+        i_, n_ = a_[8:].split('/')
+        SHARD = (int(i_), int(n_))
 bad = 0
 seen = set()
 for fn in sorted(glob.glob(os.path.join(HERE, 'mutants', 'C*.json'))):
     for m in json.load(open(fn)):
         if not m.get('expect_silent'):
+            continue
+        if IDS is not None and m['id'] not in IDS:
+            continue
+        if SHARD is not None and (zlib.crc32(m['id'].encode()) % SHARD[1]) != SHARD[0]:
             continue
         edits = m.get('edits') or [{'file': m['file'], 'old': m['old'], 'new': m['new']}]
         key = json.dumps(edits, sort_keys=True)
